@@ -24,7 +24,8 @@ RULE = ("Hypothesis draws pixel series (n 3..400) as quantile transforms of gene
         "independent root bracket (Brent on [1e-8,1e15]); int16/float64 inputs: equal except a unit at rounding ties (tie width from "
         "the Phi^-1 amplification); float32 inputs: interval oracle over the alpha range implied by single-precision logarithms. "
         "Cells with |reference| > 7000 are left to C08. Non-trivial: zeros, nodata, proper sub-window, shape outside [0.5,2] or ties; "
-        "distinct by content hash.")
+        "distinct by content hash. "
+        " Added after the fifth seeded round: Generic 'history' sub-check for spi (windows, group arrangements, nodata argument).")
 ASSUME = ["scipy.special gammainc / ndtri / digamma (also bound into the compiled code: C13 checks the binding; sub-check 'oracle' "
           "re-evaluates the reference itself with 40-digit mpmath when mpmath is importable - setup_cmd installs it into .deps)", "scipy.optimize.brentq"]
 
